@@ -1087,9 +1087,9 @@ func (e *Exec) assumeLoopFrame(lp *Loop, heaps []string) {
 	if e.con == nil || !e.con.HasFrame() || e.depth > 0 {
 		return
 	}
-	if _, tf := e.con.Raw["trusted_frame"]; tf {
-		return
-	}
+	// with a trusted frame the function's modifies clause is an assumption: it is assumed at loop heads as well,
+	// and not checked at the latch
+	_, trustedFrame := e.con.Raw["trusted_frame"]
 	lp.frameHeaps = nil
 	for _, hn := range heaps {
 		if frameHeapSkipped(hn) || strings.HasPrefix(hn, "G.") {
@@ -1099,7 +1099,9 @@ func (e *Exec) assumeLoopFrame(lp *Loop, heaps []string) {
 		if !ok {
 			continue
 		}
-		lp.frameHeaps = append(lp.frameHeaps, hn)
+		if !trustedFrame {
+			lp.frameHeaps = append(lp.frameHeaps, hn)
+		}
 		r, k := Sym("fr.q", SInt), Sym("fk.q", BV(64))
 		body := e.frameGoal(hn, cur, r, k)
 		vars := [][2]string{{"fr.q", SInt}}
